@@ -151,9 +151,8 @@ def c10(tier):
             rec = attach_construction({"id": d}, {"id": d}, dmp)
             ccases.append(rec)
             for mi, n in enumerate(rec["nfa"]):
-                if len(n["states"]) <= 70:       # LexConstruct's set-of-subsets arithmetic is too slow in TLC beyond that
-                    cjobs.append({"c": len(ccases), "m": mi + 1})
-                    cown.append({"id": d})
+                cjobs.append({"c": len(ccases), "m": mi + 1})
+                cown.append({"id": d})
     cvs, rcons = run_construct(sc, ccases, cjobs, timeout=3000)
     cby = {v["j"]: v for v in cvs}
     if len(cby) != len(cjobs):
